@@ -236,7 +236,7 @@ def run_real(ops):
             # several instructions handed to ONE emul_lines call
             instrs, sers = [], []
             for line in op['lines']:
-                hx = instr_bytes(line)
+                hx = line[4:] if line.startswith('hex:') else instr_bytes(line)
                 i = s.A.x86mnemo.dis(bytes.fromhex(hx))
                 j = s.A.x86mnemo.dis(bytes.fromhex(hx))
                 if i is None or is_rep_string(i):
@@ -723,10 +723,17 @@ def gen_history(rng):
         style = rng.choice(['single', 'single', 'block', 'reuse'])
         lines = [gen_misc_line(rng) if rng.random() < pm else gen_move_line(rng) for _ in range(n)]
         if style == 'block':
+            if rng.random() < 0.4:
+                # the get-PC idiom: a call to the next instruction inside a block (pushes the address of what follows)
+                lines.insert(rng.randrange(0, len(lines)), 'hex:e800000000')
             k = 0
             while k < len(lines):
                 step = rng.choice([1, 2, 3, 4])
-                ops.append({'op': 'block', 'lines': lines[k:k + step]} if step > 1 else {'op': 'insn', 'line': lines[k]})
+                chunk = lines[k:k + step]
+                if step > 1 or chunk[0].startswith('hex:'):
+                    ops.append({'op': 'block', 'lines': chunk})
+                else:
+                    ops.append({'op': 'insn', 'line': chunk[0]})
                 k += step
         else:
             if style == 'reuse' and len(lines) >= 2:
